@@ -1,6 +1,21 @@
 /-
 C13 — a crash at any point leaves a restartable, self-consistent node.
 Model: Drand/Persist/Crash.lean (disk, persistence steps, crash images, the loaders of the start-up path).
+
+Variant switch `WriteMode` (the file-write primitive `key.Save`): `inPlace` (create/truncate + encode into the target)
+and `atomicRename` (encode into `<target>.tmp`, Sync, Close, rename). Which one the tree under test has is the
+regenerated fact `Gen.keySaveVariant` (`tie_keySave`). What is proved, per variant:
+
+  both variants      crashImages_after/during, c13_chain_*, c13_served_stored, c13_dkgdb_whole, c13_staged_*,
+                     c13_files_one_epoch_exact / _partial (sharp list of good cuts per variant), c13_eviction_exact / _partial,
+                     the windows that REMAIN findings under both variants, with variant-independent statements:
+                       c13_window_counterexample_db_ahead, _first_dkg, _group_ahead_of_share, _leave,
+                     c13_files_one_epoch_fixed (reconcile-at-load variant), c13_resumes, c13_completion_resumes
+  atomicRename       FULL statements: c13_save_atomic (every crash point of every Save: each key file is its complete old or
+                     its complete new version, a stale temporary file is overwritten and gone afterwards), c13_no_torn_file,
+                     c13_no_startup_panic_atomic, c13_no_truncated_accepted_atomic, c13_remaining_windows_atomic
+  inPlace            the same statements are refuted: c13_window_counterexample_torn_group, _torn_share,
+                     c13_no_torn_file_counterexample_inplace
 -/
 import Drand.Persist.Crash
 
@@ -19,8 +34,16 @@ theorem tie_leaveNetwork : Gen.leaveNetworkPersist = leaveNetworkCalls := rfl
 theorem tie_storeDKGOutput : Gen.storeDKGOutputPersist = storeDKGOutputCalls := rfl
 theorem tie_saveGroup : Gen.fileStoreSaveGroupPersist = saveGroupCalls := rfl
 theorem tie_saveShare : Gen.fileStoreSaveSharePersist = saveShareCalls := rfl
-theorem tie_reset : Gen.fileStoreResetPersist = resetCalls ∧ Gen.keyDeletePersist = ["os.RemoveAll"] := ⟨rfl, rfl⟩
-theorem tie_keySave : Gen.keySavePersist = keySaveCalls := rfl
+/-- the extractor found one of the two file-write protocols the model knows (it refuses anything else) … -/
+theorem tie_keySaveVariant : Gen.keySaveVariant = "inPlace" ∨ Gen.keySaveVariant = "atomicRename" := by decide
+/-- … and the calls of `key.Save`, in order and with their guards, are the ones that variant of the model mirrors;
+the temporary file is the sibling `<target>.tmp` -/
+theorem tie_keySave :
+    Gen.keySavePersist = keySaveCalls codeWriteMode ∧
+    Gen.keyTmpExtension = (match codeWriteMode with | .inPlace => "" | .atomicRename => ".tmp") := by decide
+/-- `fileStore.Reset` is the one of the same variant (the atomicRename variant also removes left-over temporary files) -/
+theorem tie_reset : Gen.fileStoreResetPersist = resetCalls codeWriteMode ∧ Gen.keyDeletePersist = ["os.RemoveAll"] := by
+  decide
 theorem tie_createSecureFile : Gen.createSecureFilePersist = createSecureFileCalls := rfl
 /-- both buckets are written inside ONE `db.Update` -/
 theorem tie_dkgSaveFinished :
@@ -90,8 +113,11 @@ theorem crashImages_during (d : Disk) (ops : List Op) (k : Nat) (f : File) (e : 
     (Cut.during k c, (run d (ops.take k)).setFile f (.torn e c)) ∈ crashImages d ops := by
   simpa [crashImages] using aux_during d 0 ops k f e c h
 
-example : (Cut.during 2 .bad, (⟨[], ⟨.complete 1, some 1⟩, .torn 1 .bad, .absent⟩ : Disk)) ∈
-    crashImages ⟨[], ⟨.fresh, none⟩, .absent, .absent⟩ (completionOps 1) := by decide
+example : (Cut.during 2 .bad, (⟨[], ⟨.complete 1, some 1⟩, .torn 1 .bad, .absent, .absent, .absent⟩ : Disk)) ∈
+    crashImages (.clean [] ⟨.fresh, none⟩ .absent .absent) (completionOps .inPlace 1) := by decide
+-- the atomic variant: the write in flight tears the TEMPORARY file, the group file is untouched
+example : (Cut.during 2 .bad, (⟨[], ⟨.complete 1, some 1⟩, .absent, .absent, .torn 1 .bad, .absent⟩ : Disk)) ∈
+    crashImages (.clean [] ⟨.fresh, none⟩ .absent .absent) (completionOps .atomicRename 1) := by decide
 
 
 /-! ### chain store -/
@@ -175,33 +201,45 @@ theorem c13_served_stored (d : Disk) (rounds : List Nat) (k : Nat) :
           | chmod f => simpa [apply] using h
           | write f e => cases f <;> simpa [apply, Disk.setFile] using h
           | remove f => cases f <;> simpa [apply, Disk.setFile] using h
+          | rename a b => cases a <;> cases b <;> simpa [apply, Disk.setFile, Disk.getFile] using h
       rcases hr with hr | hr
       · subst hr
         apply mono
         simp [apply]
       · exact ih (apply (apply d (.boltPut a)) (.serve a)) k r (by simpa [beaconOps, served] using hr)
 
-example : GapFree (run ⟨[0, 1], ⟨.fresh, none⟩, .absent, .absent⟩ ((beaconOps [2, 3, 4]).take 3)).chain := by decide
+example : GapFree (run (.clean [0, 1] ⟨.fresh, none⟩ .absent .absent) ((beaconOps [2, 3, 4]).take 3)).chain := by decide
 
 
 /-! ### key-generation database -/
 
-/-- Whatever the crash point of a DKG completion (member or evicted), dkg.db holds either exactly the old pair of
-records or exactly the new pair (finished epoch `e` together with the staged record of the same epoch):
-one whole epoch, never a mixture. -/
-theorem c13_dkgdb_whole (d : Disk) (e : Nat) :
-    (∀ x ∈ crashImages d (completionOps e), x.2.db = d.db ∨ x.2.db = ⟨.complete e, some e⟩) ∧
-    (∀ x ∈ crashImages d (evictionOps e), x.2.db = d.db ∨ x.2.db = ⟨.complete e, some e⟩) := by
-  constructor
-  · intro x hx
-    simp [crashImages, crashImagesAux, completionOps, completionOpsIn, codeOrder, stageOps,
-      storeDKGOutputOps, saveGroupOps, saveShareOps, saveOps, createSecureFileOps, allClasses, apply,
-      Disk.setFile] at hx
-    rcases hx with hx | hx | hx | hx | hx | hx | hx | hx | hx | hx | hx | hx | hx | hx | hx <;> subst hx <;> simp
-  · intro x hx
-    simp [crashImages, crashImagesAux, evictionOps, evictionOpsIn, codeOrder, stageOps, resetOps, apply,
-      Disk.setFile] at hx
-    rcases hx with hx | hx | hx | hx <;> subst hx <;> simp
+/-- Whatever the crash point of a DKG completion (member or evicted), in either variant of the file-write primitive,
+dkg.db holds either exactly the old pair of records or exactly the new pair (finished epoch `e` together with the staged
+record of the same epoch): one whole epoch, never a mixture. -/
+theorem c13_dkgdb_whole (m : WriteMode) (d : Disk) (e : Nat) :
+    (∀ x ∈ crashImages d (completionOps m e), x.2.db = d.db ∨ x.2.db = ⟨.complete e, some e⟩) ∧
+    (∀ x ∈ crashImages d (evictionOps m e), x.2.db = d.db ∨ x.2.db = ⟨.complete e, some e⟩) := by
+  cases m
+  · constructor
+    · intro x hx
+      simp [crashImages, crashImagesAux, completionOps, completionOpsIn, codeOrder, stageOps,
+        storeDKGOutputOps, saveGroupOps, saveShareOps, saveOps, creatorOps, createSecureFileOps, allClasses, apply,
+        Disk.setFile] at hx
+      rcases hx with hx | hx | hx | hx | hx | hx | hx | hx | hx | hx | hx | hx | hx | hx | hx <;> subst hx <;> simp
+    · intro x hx
+      simp [crashImages, crashImagesAux, evictionOps, evictionOpsIn, codeOrder, stageOps, resetOps, apply,
+        Disk.setFile] at hx
+      rcases hx with hx | hx | hx | hx <;> subst hx <;> simp
+  · constructor
+    · intro x hx
+      simp [crashImages, crashImagesAux, completionOps, completionOpsIn, codeOrder, stageOps,
+        storeDKGOutputOps, saveGroupOps, saveShareOps, saveOps, creatorOps, createSecureFileOps, File.tmp, allClasses, apply,
+        Disk.setFile, Disk.getFile] at hx
+      rcases hx with hx | hx | hx | hx | hx | hx | hx | hx | hx | hx | hx | hx | hx | hx | hx | hx | hx <;> subst hx <;> simp
+    · intro x hx
+      simp [crashImages, crashImagesAux, evictionOps, evictionOpsIn, codeOrder, stageOps, resetOps, apply,
+        Disk.setFile] at hx
+      rcases hx with hx | hx | hx | hx | hx | hx <;> subst hx <;> simp
 
 /-- A step that only stages a DKG state (proposal, acceptance, execution start, failure, leaving) never touches the
 completed record, the key files or the chain. -/
@@ -223,13 +261,127 @@ theorem c13_staged_keeps_finished (d : Disk) (e : Nat) (st : String) :
 @[simp] private theorem lf_same (e : Nat) : loadFile (.torn e .same) = .val e := rfl
 @[simp] private theorem lf_accepted (e : Nat) : loadFile (.torn e .accepted) = .truncated e := rfl
 
+/-! #### the atomicRename variant: no crash point of a Save leaves a torn key file -/
+
+/-- FULL STATEMENT, one `Save` (atomicRename variant). For every crash point of `key.Save(target, v, secure)` — whatever
+was on disk before, a stale or torn temporary file of an earlier interrupted Save included — the target is either its
+complete OLD version or its complete NEW version; no other key file, neither database is touched; and once the call
+returned the target is the new version and the temporary file is gone. -/
+theorem c13_save_atomic (d : Disk) (f : File) (hf : f = .group ∨ f = .share) (secure : Bool) (e : Nat) :
+    (∀ x ∈ crashImages d (saveOps .atomicRename f secure e),
+      (x.2.getFile f = d.getFile f ∨ x.2.getFile f = .whole e) ∧
+      (∀ g, g ≠ f → g ≠ f.tmp → x.2.getFile g = d.getFile g) ∧ x.2.db = d.db ∧ x.2.chain = d.chain) ∧
+    (run d (saveOps .atomicRename f secure e)).getFile f = .whole e ∧
+    (run d (saveOps .atomicRename f secure e)).getFile f.tmp = .absent := by
+  obtain ⟨chain, db, g, s, gt, st⟩ := d
+  rcases hf with rfl | rfl <;> cases secure <;>
+    refine ⟨?_, by simp [run, saveOps, creatorOps, createSecureFileOps, File.tmp, apply, Disk.setFile, Disk.getFile],
+      by simp [run, saveOps, creatorOps, createSecureFileOps, File.tmp, apply, Disk.setFile, Disk.getFile]⟩ <;>
+    intro x hx <;>
+    simp [crashImages, crashImagesAux, saveOps, creatorOps, createSecureFileOps, File.tmp, allClasses, apply,
+      Disk.setFile, Disk.getFile] at hx
+  all_goals
+    first
+    | (rcases hx with hx | hx | hx | hx | hx | hx | hx | hx <;> subst hx <;>
+        refine ⟨by simp [Disk.getFile], ?_, rfl, rfl⟩ <;> intro g' h1 h2 <;> cases g' <;> simp_all [Disk.getFile, File.tmp])
+    | (rcases hx with hx | hx | hx | hx | hx | hx | hx | hx | hx <;> subst hx <;>
+        refine ⟨by simp [Disk.getFile], ?_, rfl, rfl⟩ <;> intro g' h1 h2 <;> cases g' <;> simp_all [Disk.getFile, File.tmp])
+
+-- a stale torn temporary file of an earlier crash does not survive the next Save, and is never what is loaded
+example : run ⟨[], ⟨.complete 1, some 1⟩, .whole 1, .whole 1, .torn 2 .panics, .trunc⟩ (saveOps .atomicRename .group false 2) =
+    ⟨[], ⟨.complete 1, some 1⟩, .whole 2, .whole 1, .absent, .trunc⟩ := by decide
+
+/-- FULL STATEMENT (atomicRename variant): at every crash point of a DKG completion each key file is its complete old or
+its complete new version — and on a node that leaves, its old version or gone. The in-place variant refutes this:
+`c13_no_torn_file_counterexample_inplace`. -/
+theorem c13_no_torn_file (d : Disk) (e : Nat) :
+    (∀ x ∈ crashImages d (completionOps .atomicRename e),
+      (x.2.group = d.group ∨ x.2.group = .whole e) ∧ (x.2.share = d.share ∨ x.2.share = .whole e)) ∧
+    (∀ x ∈ crashImages d (evictionOps .atomicRename e),
+      (x.2.group = d.group ∨ x.2.group = .absent) ∧ (x.2.share = d.share ∨ x.2.share = .absent)) := by
+  obtain ⟨chain, db, g, s, gt, st⟩ := d
+  constructor
+  · intro x hx
+    simp [crashImages, crashImagesAux, completionOps, completionOpsIn, codeOrder, stageOps,
+      storeDKGOutputOps, saveGroupOps, saveShareOps, saveOps, creatorOps, createSecureFileOps, File.tmp, allClasses, apply,
+      Disk.setFile, Disk.getFile] at hx
+    rcases hx with hx | hx | hx | hx | hx | hx | hx | hx | hx | hx | hx | hx | hx | hx | hx | hx | hx <;> subst hx <;> simp
+  · intro x hx
+    simp [crashImages, crashImagesAux, evictionOps, evictionOpsIn, codeOrder, stageOps, resetOps, apply,
+      Disk.setFile] at hx
+    rcases hx with hx | hx | hx | hx | hx | hx <;> subst hx <;> simp
+
+/-- what the start-up path makes of key files that are intact (absent, or one complete encoding): it never panics, never
+fails on a decode error, and never starts with a truncated share -/
+private theorem intact_startup (member : Nat → Bool) (d : Disk) (hg : d.group.intact = true) (hs : d.share.intact = true) :
+    (loadFile d.group).sound = true ∧ (loadFile d.share).sound = true ∧
+    (recover asIs member d).outcome ≠ .panicked ∧ (recover asIs member d).outcome ≠ .decodeErr ∧
+    (∀ g s, (recover asIs member d).outcome = .ok g s → ∃ k, s = .val k) := by
+  obtain ⟨chain, ⟨cur, fin⟩, g, s, gt, st⟩ := d
+  cases g <;> simp [FileState.intact] at hg <;> cases s <;> simp [FileState.intact] at hs <;> cases fin <;>
+    simp [recover, asIs, startup, startupOutcome, bpLoadL, Loaded.sound] <;>
+    (try split) <;> simp
+
+/-- intactness of both key files is an invariant of every step sequence of the atomicRename variant: it holds in every
+crash image of a completion / an eviction that started from intact files -/
+private theorem intact_preserved (d : Disk) (e : Nat) (hg : d.group.intact = true) (hs : d.share.intact = true) :
+    (∀ x ∈ crashImages d (completionOps .atomicRename e), x.2.group.intact = true ∧ x.2.share.intact = true) ∧
+    (∀ x ∈ crashImages d (evictionOps .atomicRename e), x.2.group.intact = true ∧ x.2.share.intact = true) := by
+  constructor
+  · intro x hx
+    obtain ⟨h1, h2⟩ := (c13_no_torn_file d e).1 x hx
+    constructor
+    · rcases h1 with h | h <;> rw [h] <;> first | exact hg | rfl
+    · rcases h2 with h | h <;> rw [h] <;> first | exact hs | rfl
+  · intro x hx
+    obtain ⟨h1, h2⟩ := (c13_no_torn_file d e).2 x hx
+    constructor
+    · rcases h1 with h | h <;> rw [h] <;> first | exact hg | rfl
+    · rcases h2 with h | h <;> rw [h] <;> first | exact hs | rfl
+
+/-- FULL STATEMENT (atomicRename variant): whatever the crash point of a DKG completion or an eviction, the key files
+stay intact, `key.Load` decodes what it finds without panicking, and the daemon's start-up path neither panics nor
+fails on an undecodable key file. (In-place variant: `c13_window_counterexample_torn_group`.) -/
+theorem c13_no_startup_panic_atomic (member : Nat → Bool) (d : Disk) (e : Nat)
+    (hg : d.group.intact = true) (hs : d.share.intact = true) :
+    ∀ x, (x ∈ crashImages d (completionOps .atomicRename e) ∨ x ∈ crashImages d (evictionOps .atomicRename e)) →
+      x.2.group.intact = true ∧ x.2.share.intact = true ∧
+      loadFile x.2.group ≠ .panics ∧ loadFile x.2.share ≠ .panics ∧
+      (recover asIs member x.2).outcome ≠ .panicked ∧ (recover asIs member x.2).outcome ≠ .decodeErr := by
+  intro x hx
+  have hi : x.2.group.intact = true ∧ x.2.share.intact = true := by
+    rcases hx with hx | hx
+    · exact (intact_preserved d e hg hs).1 x hx
+    · exact (intact_preserved d e hg hs).2 x hx
+  obtain ⟨s1, s2, h3, h4, -⟩ := intact_startup member x.2 hi.1 hi.2
+  refine ⟨hi.1, hi.2, ?_, ?_, h3, h4⟩
+  · intro h; rw [h] at s1; exact absurd s1 (by decide)
+  · intro h; rw [h] at s2; exact absurd s2 (by decide)
+
+/-- FULL STATEMENT (atomicRename variant): no crash point makes `key.Load` accept a truncated group or share, and a
+beacon that starts does so with a complete share. (In-place variant: `c13_window_counterexample_torn_share`.) -/
+theorem c13_no_truncated_accepted_atomic (member : Nat → Bool) (d : Disk) (e : Nat)
+    (hg : d.group.intact = true) (hs : d.share.intact = true) :
+    ∀ x, (x ∈ crashImages d (completionOps .atomicRename e) ∨ x ∈ crashImages d (evictionOps .atomicRename e)) →
+      (∀ k, loadFile x.2.group ≠ .truncated k) ∧ (∀ k, loadFile x.2.share ≠ .truncated k) ∧
+      (∀ g s, (recover asIs member x.2).outcome = .ok g s → ∃ k, s = .val k) := by
+  intro x hx
+  have hi : x.2.group.intact = true ∧ x.2.share.intact = true := by
+    rcases hx with hx | hx
+    · exact (intact_preserved d e hg hs).1 x hx
+    · exact (intact_preserved d e hg hs).2 x hx
+  obtain ⟨s1, s2, -, -, h5⟩ := intact_startup member x.2 hi.1 hi.2
+  refine ⟨?_, ?_, h5⟩
+  · intro k h; rw [h] at s1; simp [Loaded.sound] at s1
+  · intro k h; rw [h] at s2; simp [Loaded.sound] at s2
+
 /-- the three shapes of a self-consistent disk: fresh install, member of the last completed epoch, not a member -/
 private theorem start_shapes (member : Nat → Bool) (d : Disk)
     (h : Consistent member (recover asIs member d) = true) :
     (d.db.finished = none ∧ loadFile d.group = .missing ∧ loadFile d.share = .missing) ∨
     (∃ p, d.db.finished = some p ∧ member p = true ∧ loadFile d.group = .val p ∧ loadFile d.share = .val p) ∨
     (∃ p, d.db.finished = some p ∧ member p = false ∧ loadFile d.group = .missing ∧ loadFile d.share = .missing) := by
-  obtain ⟨chain, ⟨cur, fin⟩, g, s⟩ := d
+  obtain ⟨chain, ⟨cur, fin⟩, g, s, gt, st⟩ := d
   cases fin with
   | none =>
     left
@@ -247,216 +399,325 @@ private theorem start_shapes (member : Nat → Bool) (d : Disk)
       simp [Consistent, recover, asIs, hm] at h
       exact ⟨p, rfl, hm, h.1, h.2⟩
 
-/-- the crash points of a completion at which the as-is code leaves a self-consistent disk: before anything was
-written, after everything was written, and while the share file is being written if the prefix already decodes
-to the whole share -/
-def goodCompletionCut : Cut → Bool
-  | .after 0 => true
-  | .after 6 => true
-  | .during 5 .same => true
-  | _ => false
+/-- the crash points of a completion at which the code leaves a self-consistent disk.
+in place: before anything was written, after everything was written, and while the share file is being written if the
+prefix already decodes to the whole share. atomic rename: before anything was written and after the share was renamed
+into place — the temporary-file steps in between do not count, they change nothing a restart looks at. -/
+def goodCompletionCut : WriteMode → Cut → Bool
+  | _, .after 0 => true
+  | .inPlace, .after 6 => true
+  | .inPlace, .during 5 .same => true
+  | .atomicRename, .after 8 => true
+  | _, _ => false
 
 /-
-FULL STATEMENT (C13, key files), NOT provable for the code as it is:
+FULL STATEMENT (C13, key files), NOT provable for the code as it is, in EITHER variant of the file-write primitive:
 
   theorem c13_files_one_epoch (member d e) (hstart : Consistent member (recover asIs member d)) … :
-      ∀ x ∈ crashImages d (completionOps e), Consistent member (recover asIs member x.2) = true
+      ∀ x ∈ crashImages d (completionOps m e), Consistent member (recover asIs member x.2) = true
 
-The extracted order is  SaveFinished ; os.Create(group) ; Encode(group) ; os.Create(share) ; chmod ; Encode(share)
-with nothing at start-up that reconciles the key files with the finished DKG record, so the statement fails at
-every crash point strictly inside the completion. Proved instead:
+The extracted order is  SaveFinished ; Save(group) ; Save(share)  with nothing at start-up that reconciles the key files
+with the finished DKG record, so the statement fails at every crash point strictly inside the completion. Proved instead:
   * `c13_files_one_epoch_exact`   — for EVERY crash point: consistent ⇔ `goodCompletionCut` (so the partial theorem
                                     below is sharp and every other cut is a counterexample),
   * `c13_files_one_epoch_partial` — the good cuts,
+  * `c13_remaining_windows_atomic` — atomicRename: every other cut is "dkg.db ahead of the key files" or "group of the new
+                                    epoch with the share of the old one", nothing else (no torn / unreadable file),
   * `c13_window_counterexample_*` — concrete witnesses, replayed on real directories by the harness,
   * `c13_files_one_epoch_fixed`   — the full statement for the corrected variant (reconcile at load).
 -/
 
 /-- For every crash point of a DKG completion started from a self-consistent disk, on a node that is in the new
-group: the recovered node is self-consistent exactly at the good cuts. -/
-theorem c13_files_one_epoch_exact (member : Nat → Bool) (d : Disk) (e : Nat)
+group: the recovered node is self-consistent exactly at the good cuts of the variant. -/
+theorem c13_files_one_epoch_exact (m : WriteMode) (member : Nat → Bool) (d : Disk) (e : Nat)
     (hstart : Consistent member (recover asIs member d) = true)
     (hnew : ∀ p, d.db.finished = some p → p ≠ e) (hmem : member e = true) :
-    ∀ x ∈ crashImages d (completionOps e),
-      Consistent member (recover asIs member x.2) = goodCompletionCut x.1 := by
+    ∀ x ∈ crashImages d (completionOps m e),
+      Consistent member (recover asIs member x.2) = goodCompletionCut m x.1 := by
   have shapes := start_shapes member d hstart
-  obtain ⟨chain, ⟨cur, fin⟩, g, s⟩ := d
+  obtain ⟨chain, ⟨cur, fin⟩, g, s, gt, st⟩ := d
   intro x hx
-  simp [crashImages, crashImagesAux, completionOps, completionOpsIn, codeOrder, stageOps,
-    storeDKGOutputOps, saveGroupOps, saveShareOps, saveOps, createSecureFileOps, allClasses, apply,
-    Disk.setFile] at hx
-  rcases shapes with ⟨hf, hg, hs⟩ | ⟨p, hf, hp, hg, hs⟩ | ⟨p, hf, hp, hg, hs⟩
-  · simp only at hf hg hs
-    subst hf
-    rcases hx with hx | hx | hx | hx | hx | hx | hx | hx | hx | hx | hx | hx | hx | hx | hx <;> subst hx <;>
-      simp [Consistent, recover, asIs, startup, startupOutcome, bpLoadL, goodCompletionCut, hg, hs, hmem]
-  · simp only at hf hg hs
-    subst hf
-    have hne : p ≠ e := hnew p rfl
-    rcases hx with hx | hx | hx | hx | hx | hx | hx | hx | hx | hx | hx | hx | hx | hx | hx <;> subst hx <;>
-      simp [Consistent, recover, asIs, startup, startupOutcome, bpLoadL, goodCompletionCut, hg, hs, hmem, hp, hne]
-  · simp only at hf hg hs
-    subst hf
-    rcases hx with hx | hx | hx | hx | hx | hx | hx | hx | hx | hx | hx | hx | hx | hx | hx <;> subst hx <;>
-      simp [Consistent, recover, asIs, startup, startupOutcome, bpLoadL, goodCompletionCut, hg, hs, hmem, hp]
+  cases m
+  · simp [crashImages, crashImagesAux, completionOps, completionOpsIn, codeOrder, stageOps,
+      storeDKGOutputOps, saveGroupOps, saveShareOps, saveOps, creatorOps, createSecureFileOps, allClasses, apply,
+      Disk.setFile] at hx
+    rcases shapes with ⟨hf, hg, hs⟩ | ⟨p, hf, hp, hg, hs⟩ | ⟨p, hf, hp, hg, hs⟩
+    · simp only at hf hg hs
+      subst hf
+      rcases hx with hx | hx | hx | hx | hx | hx | hx | hx | hx | hx | hx | hx | hx | hx | hx <;> subst hx <;>
+        simp [Consistent, recover, asIs, startup, startupOutcome, bpLoadL, goodCompletionCut, hg, hs, hmem]
+    · simp only at hf hg hs
+      subst hf
+      have hne : p ≠ e := hnew p rfl
+      rcases hx with hx | hx | hx | hx | hx | hx | hx | hx | hx | hx | hx | hx | hx | hx | hx <;> subst hx <;>
+        simp [Consistent, recover, asIs, startup, startupOutcome, bpLoadL, goodCompletionCut, hg, hs, hmem, hp, hne]
+    · simp only at hf hg hs
+      subst hf
+      rcases hx with hx | hx | hx | hx | hx | hx | hx | hx | hx | hx | hx | hx | hx | hx | hx <;> subst hx <;>
+        simp [Consistent, recover, asIs, startup, startupOutcome, bpLoadL, goodCompletionCut, hg, hs, hmem, hp]
+  · simp [crashImages, crashImagesAux, completionOps, completionOpsIn, codeOrder, stageOps,
+      storeDKGOutputOps, saveGroupOps, saveShareOps, saveOps, creatorOps, createSecureFileOps, File.tmp, allClasses, apply,
+      Disk.setFile, Disk.getFile] at hx
+    rcases shapes with ⟨hf, hg, hs⟩ | ⟨p, hf, hp, hg, hs⟩ | ⟨p, hf, hp, hg, hs⟩
+    · simp only at hf hg hs
+      subst hf
+      rcases hx with hx | hx | hx | hx | hx | hx | hx | hx | hx | hx | hx | hx | hx | hx | hx | hx | hx <;> subst hx <;>
+        simp [Consistent, recover, asIs, startup, startupOutcome, bpLoadL, goodCompletionCut, hg, hs, hmem]
+    · simp only at hf hg hs
+      subst hf
+      have hne : p ≠ e := hnew p rfl
+      rcases hx with hx | hx | hx | hx | hx | hx | hx | hx | hx | hx | hx | hx | hx | hx | hx | hx | hx <;> subst hx <;>
+        simp [Consistent, recover, asIs, startup, startupOutcome, bpLoadL, goodCompletionCut, hg, hs, hmem, hp, hne]
+    · simp only at hf hg hs
+      subst hf
+      rcases hx with hx | hx | hx | hx | hx | hx | hx | hx | hx | hx | hx | hx | hx | hx | hx | hx | hx <;> subst hx <;>
+        simp [Consistent, recover, asIs, startup, startupOutcome, bpLoadL, goodCompletionCut, hg, hs, hmem, hp]
 
-
-/-- The part of the full statement that holds for the code as it is: at the good cuts the key files belong to one
-epoch, the latest epoch dkg.db records as completed, and the start-up path loads exactly them. -/
-theorem c13_files_one_epoch_partial (member : Nat → Bool) (d : Disk) (e : Nat)
+/-- The part of the full statement that holds for the code as it is (either variant): at the good cuts the key files
+belong to one epoch, the latest epoch dkg.db records as completed, and the start-up path loads exactly them. -/
+theorem c13_files_one_epoch_partial (m : WriteMode) (member : Nat → Bool) (d : Disk) (e : Nat)
     (hstart : Consistent member (recover asIs member d) = true)
     (hnew : ∀ p, d.db.finished = some p → p ≠ e) (hmem : member e = true) :
-    ∀ x ∈ crashImages d (completionOps e), goodCompletionCut x.1 = true →
+    ∀ x ∈ crashImages d (completionOps m e), goodCompletionCut m x.1 = true →
       Consistent member (recover asIs member x.2) = true := by
   intro x hx hg
-  rw [c13_files_one_epoch_exact member d e hstart hnew hmem x hx, hg]
+  rw [c13_files_one_epoch_exact m member d e hstart hnew hmem x hx, hg]
+
+/-- atomicRename variant: what is left of the windows. At every crash point of a completion the recovered node is
+self-consistent, or dkg.db is ahead of two UNTOUCHED key files, or the complete group file of the new epoch stands next
+to the UNTOUCHED share file — nothing else; in particular no key file is ever torn, empty or half-written. -/
+theorem c13_remaining_windows_atomic (member : Nat → Bool) (d : Disk) (e : Nat)
+    (hstart : Consistent member (recover asIs member d) = true)
+    (hnew : ∀ p, d.db.finished = some p → p ≠ e) (hmem : member e = true) :
+    ∀ x ∈ crashImages d (completionOps .atomicRename e),
+      Consistent member (recover asIs member x.2) = true ∨
+      (x.2.db.finished = some e ∧ x.2.group = d.group ∧ x.2.share = d.share) ∨
+      (x.2.db.finished = some e ∧ x.2.group = .whole e ∧ x.2.share = d.share) := by
+  intro x hx
+  have hex := c13_files_one_epoch_exact .atomicRename member d e hstart hnew hmem x hx
+  obtain ⟨chain, ⟨cur, fin⟩, g, s, gt, st⟩ := d
+  simp [crashImages, crashImagesAux, completionOps, completionOpsIn, codeOrder, stageOps,
+    storeDKGOutputOps, saveGroupOps, saveShareOps, saveOps, creatorOps, createSecureFileOps, File.tmp, allClasses, apply,
+    Disk.setFile, Disk.getFile] at hx
+  rcases hx with hx | hx | hx | hx | hx | hx | hx | hx | hx | hx | hx | hx | hx | hx | hx | hx | hx <;> subst hx <;>
+    first
+    | (left; rw [hex]; rfl)
+    | (right; left; exact ⟨rfl, rfl, rfl⟩)
+    | (right; right; exact ⟨rfl, rfl, rfl⟩)
 
 /-- a node with completed epoch 1 (member), resharing into epoch 2 (member) -/
-def exDisk : Disk := ⟨[0, 1, 2], ⟨.complete 1, some 1⟩, .whole 1, .whole 1⟩
+def exDisk : Disk := .clean [0, 1, 2] ⟨.complete 1, some 1⟩ (.whole 1) (.whole 1)
 def exMember : Nat → Bool := fun _ => true
 
 example : Consistent exMember (recover asIs exMember exDisk) = true := by decide
-example : ∃ x ∈ crashImages exDisk (completionOps 2), goodCompletionCut x.1 = true ∧ x.1 ≠ .after 0 :=
-  ⟨(.after 6, ⟨[0, 1, 2], ⟨.complete 2, some 2⟩, .whole 2, .whole 2⟩), by decide, by decide, by decide⟩
+example : ∃ x ∈ crashImages exDisk (completionOps .inPlace 2), goodCompletionCut .inPlace x.1 = true ∧ x.1 ≠ .after 0 :=
+  ⟨(.after 6, .clean [0, 1, 2] ⟨.complete 2, some 2⟩ (.whole 2) (.whole 2)), by decide, by decide, by decide⟩
+example : ∃ x ∈ crashImages exDisk (completionOps .atomicRename 2), goodCompletionCut .atomicRename x.1 = true ∧ x.1 ≠ .after 0 :=
+  ⟨(.after 8, .clean [0, 1, 2] ⟨.complete 2, some 2⟩ (.whole 2) (.whole 2)), by decide, by decide, by decide⟩
+example : exDisk.group.intact = true ∧ exDisk.share.intact = true := by decide
+-- all three disjuncts of `c13_remaining_windows_atomic` occur
+example : (∃ x ∈ crashImages exDisk (completionOps .atomicRename 2), Consistent exMember (recover asIs exMember x.2) = true) ∧
+    (∃ x ∈ crashImages exDisk (completionOps .atomicRename 2), x.2.db.finished = some 2 ∧ x.2.group = .whole 1 ∧ x.2.share = .whole 1) ∧
+    (∃ x ∈ crashImages exDisk (completionOps .atomicRename 2), x.2.db.finished = some 2 ∧ x.2.group = .whole 2 ∧ x.2.share = .whole 1) :=
+  ⟨⟨(.after 0, exDisk), by decide, by decide⟩,
+   ⟨(.after 1, .clean [0, 1, 2] ⟨.complete 2, some 2⟩ (.whole 1) (.whole 1)), by decide, by decide⟩,
+   ⟨(.after 4, .clean [0, 1, 2] ⟨.complete 2, some 2⟩ (.whole 2) (.whole 1)), by decide, by decide⟩⟩
 
-/-- crash after SaveFinished, before the group file is touched: dkg.db says epoch 2, both key files are epoch 1;
+/-! #### windows that remain findings under BOTH variants (variant-independent statements) -/
+
+/-- crash after SaveFinished, before the group file is replaced: dkg.db says epoch 2, both key files are epoch 1;
 the restarted node runs with the OLD group and share although the network moved on. -/
-theorem c13_window_counterexample_db_ahead :
-    (Cut.after 1, (⟨[0, 1, 2], ⟨.complete 2, some 2⟩, .whole 1, .whole 1⟩ : Disk)) ∈ crashImages exDisk (completionOps 2) ∧
-    recover asIs exMember ⟨[0, 1, 2], ⟨.complete 2, some 2⟩, .whole 1, .whole 1⟩ =
+theorem c13_window_counterexample_db_ahead (m : WriteMode) :
+    (Cut.after 1, Disk.clean [0, 1, 2] ⟨.complete 2, some 2⟩ (.whole 1) (.whole 1)) ∈ crashImages exDisk (completionOps m 2) ∧
+    recover asIs exMember (.clean [0, 1, 2] ⟨.complete 2, some 2⟩ (.whole 1) (.whole 1)) =
       ⟨some 2, .complete 2, .val 1, .val 1, .ok 1 (.val 1), [0, 1, 2]⟩ ∧
-    Consistent exMember (recover asIs exMember ⟨[0, 1, 2], ⟨.complete 2, some 2⟩, .whole 1, .whole 1⟩) = false := by
-  decide
+    Consistent exMember (recover asIs exMember (.clean [0, 1, 2] ⟨.complete 2, some 2⟩ (.whole 1) (.whole 1))) = false := by
+  cases m <;> decide
 
 /-- the same window on a node's FIRST DKG: dkg.db says epoch 1, no key files: `Load` answers ErrDKGNotStarted and the
 daemon refuses to start -/
-theorem c13_window_counterexample_first_dkg :
-    (Cut.after 1, (⟨[], ⟨.complete 1, some 1⟩, .absent, .absent⟩ : Disk)) ∈
-      crashImages ⟨[], ⟨.staged 1 "Executing", none⟩, .absent, .absent⟩ (completionOps 1) ∧
-    (recover asIs exMember ⟨[], ⟨.complete 1, some 1⟩, .absent, .absent⟩).outcome = .notStarted ∧
-    Consistent exMember (recover asIs exMember ⟨[], ⟨.complete 1, some 1⟩, .absent, .absent⟩) = false := by
-  decide
+theorem c13_window_counterexample_first_dkg (m : WriteMode) :
+    (Cut.after 1, Disk.clean [] ⟨.complete 1, some 1⟩ .absent .absent) ∈
+      crashImages (.clean [] ⟨.staged 1 "Executing", none⟩ .absent .absent) (completionOps m 1) ∧
+    (recover asIs exMember (.clean [] ⟨.complete 1, some 1⟩ .absent .absent)).outcome = .notStarted ∧
+    Consistent exMember (recover asIs exMember (.clean [] ⟨.complete 1, some 1⟩ .absent .absent)) = false := by
+  cases m <;> decide
 
-/-- crash while the group file is written (created/truncated, or any torn prefix): the file does not decode, `Load`
-answers ErrDKGNotStarted (bad prefix / empty file) or panics (decoder panic, or a truncated group without its
+/-- crash after the group file is complete (written in place, or renamed into place), before the share file is replaced:
+group of epoch 2 with the share of epoch 1 — `Load` succeeds and the beacon starts with a share that does not belong to
+the group. Writing the temporary share file does not close the window: it lasts until the share is renamed. -/
+theorem c13_window_counterexample_group_ahead_of_share (m : WriteMode) :
+    (∃ k, (Cut.after k, Disk.clean [0, 1, 2] ⟨.complete 2, some 2⟩ (.whole 2) (.whole 1)) ∈ crashImages exDisk (completionOps m 2)) ∧
+    (recover asIs exMember (.clean [0, 1, 2] ⟨.complete 2, some 2⟩ (.whole 2) (.whole 1))).outcome = .ok 2 (.val 1) ∧
+    Resumes exMember (recover asIs exMember (.clean [0, 1, 2] ⟨.complete 2, some 2⟩ (.whole 2) (.whole 1))) = false ∧
+    Consistent exMember (recover asIs exMember (.clean [0, 1, 2] ⟨.complete 2, some 2⟩ (.whole 2) (.whole 1))) = false := by
+  cases m
+  · exact ⟨⟨3, by decide⟩, by decide, by decide, by decide⟩
+  · exact ⟨⟨4, by decide⟩, by decide, by decide, by decide⟩
+
+/-! #### windows of the in-place variant only -/
+
+/-- in place: crash while the group file is written (created/truncated, or any torn prefix): the file does not decode,
+`Load` answers ErrDKGNotStarted (bad prefix / empty file) or panics (decoder panic, or a truncated group without its
 distributed key is accepted by the decoder and dereferenced) -/
 theorem c13_window_counterexample_torn_group :
-    (∀ c, (Cut.during 2 c, (⟨[0, 1, 2], ⟨.complete 2, some 2⟩, .torn 2 c, .whole 1⟩ : Disk)) ∈
-      crashImages exDisk (completionOps 2)) ∧
-    (Cut.after 2, (⟨[0, 1, 2], ⟨.complete 2, some 2⟩, .trunc, .whole 1⟩ : Disk)) ∈ crashImages exDisk (completionOps 2) ∧
-    (recover asIs exMember ⟨[0, 1, 2], ⟨.complete 2, some 2⟩, .trunc, .whole 1⟩).outcome = .notStarted ∧
-    (recover asIs exMember ⟨[0, 1, 2], ⟨.complete 2, some 2⟩, .torn 2 .bad, .whole 1⟩).outcome = .notStarted ∧
-    (recover asIs exMember ⟨[0, 1, 2], ⟨.complete 2, some 2⟩, .torn 2 .panics, .whole 1⟩).outcome = .panicked ∧
-    (recover asIs exMember ⟨[0, 1, 2], ⟨.complete 2, some 2⟩, .torn 2 .accepted, .whole 1⟩).outcome = .panicked ∧
-    (∀ c, Consistent exMember (recover asIs exMember ⟨[0, 1, 2], ⟨.complete 2, some 2⟩, .torn 2 c, .whole 1⟩) = false) := by
+    (∀ c, (Cut.during 2 c, Disk.clean [0, 1, 2] ⟨.complete 2, some 2⟩ (.torn 2 c) (.whole 1)) ∈
+      crashImages exDisk (completionOps .inPlace 2)) ∧
+    (Cut.after 2, Disk.clean [0, 1, 2] ⟨.complete 2, some 2⟩ .trunc (.whole 1)) ∈ crashImages exDisk (completionOps .inPlace 2) ∧
+    (recover asIs exMember (.clean [0, 1, 2] ⟨.complete 2, some 2⟩ .trunc (.whole 1))).outcome = .notStarted ∧
+    (recover asIs exMember (.clean [0, 1, 2] ⟨.complete 2, some 2⟩ (.torn 2 .bad) (.whole 1))).outcome = .notStarted ∧
+    (recover asIs exMember (.clean [0, 1, 2] ⟨.complete 2, some 2⟩ (.torn 2 .panics) (.whole 1))).outcome = .panicked ∧
+    (recover asIs exMember (.clean [0, 1, 2] ⟨.complete 2, some 2⟩ (.torn 2 .accepted) (.whole 1))).outcome = .panicked ∧
+    (∀ c, Consistent exMember (recover asIs exMember (.clean [0, 1, 2] ⟨.complete 2, some 2⟩ (.torn 2 c) (.whole 1))) = false) := by
   refine ⟨?_, by decide, by decide, by decide, by decide, by decide, ?_⟩ <;> intro c <;> cases c <;> decide
 
-/-- crash after the group file is complete, before the share file is touched: group of epoch 2 with the share of
-epoch 1 — `Load` succeeds and the beacon starts with a share that does not belong to the group -/
-theorem c13_window_counterexample_group_ahead_of_share :
-    (Cut.after 3, (⟨[0, 1, 2], ⟨.complete 2, some 2⟩, .whole 2, .whole 1⟩ : Disk)) ∈ crashImages exDisk (completionOps 2) ∧
-    (recover asIs exMember ⟨[0, 1, 2], ⟨.complete 2, some 2⟩, .whole 2, .whole 1⟩).outcome = .ok 2 (.val 1) ∧
-    Resumes exMember (recover asIs exMember ⟨[0, 1, 2], ⟨.complete 2, some 2⟩, .whole 2, .whole 1⟩) = false ∧
-    Consistent exMember (recover asIs exMember ⟨[0, 1, 2], ⟨.complete 2, some 2⟩, .whole 2, .whole 1⟩) = false := by
+/-- in place: crash while the share file is written: empty or undecodable share (`Load` fails), or a truncated share that
+the decoder accepts (no commitments) and the beacon starts with -/
+theorem c13_window_counterexample_torn_share :
+    (Cut.after 4, Disk.clean [0, 1, 2] ⟨.complete 2, some 2⟩ (.whole 2) .trunc) ∈ crashImages exDisk (completionOps .inPlace 2) ∧
+    (recover asIs exMember (.clean [0, 1, 2] ⟨.complete 2, some 2⟩ (.whole 2) .trunc)).outcome = .decodeErr ∧
+    (Cut.during 5 .accepted, Disk.clean [0, 1, 2] ⟨.complete 2, some 2⟩ (.whole 2) (.torn 2 .accepted)) ∈
+      crashImages exDisk (completionOps .inPlace 2) ∧
+    (recover asIs exMember (.clean [0, 1, 2] ⟨.complete 2, some 2⟩ (.whole 2) (.torn 2 .accepted))).outcome = .ok 2 (.truncated 2) ∧
+    Consistent exMember (recover asIs exMember (.clean [0, 1, 2] ⟨.complete 2, some 2⟩ (.whole 2) (.torn 2 .accepted))) = false := by
   decide
 
-/-- crash while the share file is written: empty or undecodable share (`Load` fails), or a truncated share that the
-decoder accepts (no commitments) and the beacon starts with -/
-theorem c13_window_counterexample_torn_share :
-    (Cut.after 4, (⟨[0, 1, 2], ⟨.complete 2, some 2⟩, .whole 2, .trunc⟩ : Disk)) ∈ crashImages exDisk (completionOps 2) ∧
-    (recover asIs exMember ⟨[0, 1, 2], ⟨.complete 2, some 2⟩, .whole 2, .trunc⟩).outcome = .decodeErr ∧
-    (Cut.during 5 .accepted, (⟨[0, 1, 2], ⟨.complete 2, some 2⟩, .whole 2, .torn 2 .accepted⟩ : Disk)) ∈
-      crashImages exDisk (completionOps 2) ∧
-    (recover asIs exMember ⟨[0, 1, 2], ⟨.complete 2, some 2⟩, .whole 2, .torn 2 .accepted⟩).outcome = .ok 2 (.truncated 2) ∧
-    Consistent exMember (recover asIs exMember ⟨[0, 1, 2], ⟨.complete 2, some 2⟩, .whole 2, .torn 2 .accepted⟩) = false := by
-  decide
+/-- in place: the statements `c13_no_torn_file`, `c13_no_startup_panic_atomic`, `c13_no_truncated_accepted_atomic` are
+FALSE — from intact files a crash point exists whose group file is neither the old nor the new version, at which the
+decoder panics, and one at which a truncated share is accepted -/
+theorem c13_no_torn_file_counterexample_inplace :
+    exDisk.group.intact = true ∧ exDisk.share.intact = true ∧
+    (∃ x ∈ crashImages exDisk (completionOps .inPlace 2),
+      x.2.group ≠ exDisk.group ∧ x.2.group ≠ .whole 2 ∧ x.2.group.intact = false ∧
+      loadFile x.2.group = .panics ∧ (recover asIs exMember x.2).outcome = .panicked) ∧
+    (∃ x ∈ crashImages exDisk (completionOps .inPlace 2),
+      loadFile x.2.share = .truncated 2 ∧ (recover asIs exMember x.2).outcome = .ok 2 (.truncated 2)) :=
+  ⟨by decide, by decide,
+   ⟨(.during 2 .panics, .clean [0, 1, 2] ⟨.complete 2, some 2⟩ (.torn 2 .panics) (.whole 1)), by decide, by decide, by decide,
+     by decide, by decide, by decide⟩,
+   ⟨(.during 5 .accepted, .clean [0, 1, 2] ⟨.complete 2, some 2⟩ (.whole 2) (.torn 2 .accepted)), by decide, by decide, by decide⟩⟩
+
+/-- what holds for the tree under test: if its `key.Save` is the atomicRename variant (`Gen.keySaveVariant`), no crash
+point of a completion or an eviction leaves a key file that is not a complete old or new version -/
+theorem c13_no_torn_file_code (h : codeWriteMode = .atomicRename) (d : Disk) (e : Nat) :
+    (∀ x ∈ crashImages d (completionOps codeWriteMode e),
+      (x.2.group = d.group ∨ x.2.group = .whole e) ∧ (x.2.share = d.share ∨ x.2.share = .whole e)) ∧
+    (∀ x ∈ crashImages d (evictionOps codeWriteMode e),
+      (x.2.group = d.group ∨ x.2.group = .absent) ∧ (x.2.share = d.share ∨ x.2.share = .absent)) := by
+  rw [h]; exact c13_no_torn_file d e
 
 /-! ### a node that ran the protocol but is not in the new group (`leaveNetwork`) -/
 
-def goodEvictionCut : Cut → Bool
-  | .after 0 => true
-  | .after 3 => true
-  | _ => false
+def goodEvictionCut : WriteMode → Cut → Bool
+  | _, .after 0 => true
+  | _, .after 3 => true
+  | .atomicRename, .after 4 => true   -- the two removals of (absent) temporary files change nothing
+  | .atomicRename, .after 5 => true
+  | _, _ => false
 
 /-- For every crash point of a completion on a node that is NOT in the new group: self-consistent exactly before
 anything was written and after both key files were removed. -/
-theorem c13_eviction_exact (member : Nat → Bool) (d : Disk) (e : Nat)
+theorem c13_eviction_exact (m : WriteMode) (member : Nat → Bool) (d : Disk) (e : Nat)
     (hstart : Consistent member (recover asIs member d) = true)
     (hold : ∃ p, d.db.finished = some p ∧ member p = true ∧ p ≠ e) (hmem : member e = false) :
-    ∀ x ∈ crashImages d (evictionOps e),
-      Consistent member (recover asIs member x.2) = goodEvictionCut x.1 := by
+    ∀ x ∈ crashImages d (evictionOps m e),
+      Consistent member (recover asIs member x.2) = goodEvictionCut m x.1 := by
   have shapes := start_shapes member d hstart
-  obtain ⟨chain, ⟨cur, fin⟩, g, s⟩ := d
+  obtain ⟨chain, ⟨cur, fin⟩, g, s, gt, st⟩ := d
   obtain ⟨p, hf, hp, hne⟩ := hold
   simp only at hf
   subst hf
   intro x hx
-  simp [crashImages, crashImagesAux, evictionOps, evictionOpsIn, codeOrder, stageOps, resetOps, apply,
-    Disk.setFile] at hx
   rcases shapes with ⟨hf, -⟩ | ⟨q, hf, hq, hg, hs⟩ | ⟨q, hf, hq, -⟩
   · simp at hf
   · simp only [Option.some.injEq] at hf hg hs
     subst hf
-    rcases hx with hx | hx | hx | hx <;> subst hx <;>
-      simp [Consistent, recover, asIs, startup, startupOutcome, bpLoadL, goodEvictionCut, hg, hs, hmem, hp]
+    cases m
+    · simp [crashImages, crashImagesAux, evictionOps, evictionOpsIn, codeOrder, stageOps, resetOps, apply,
+        Disk.setFile] at hx
+      rcases hx with hx | hx | hx | hx <;> subst hx <;>
+        simp [Consistent, recover, asIs, startup, startupOutcome, bpLoadL, goodEvictionCut, hg, hs, hmem, hp]
+    · simp [crashImages, crashImagesAux, evictionOps, evictionOpsIn, codeOrder, stageOps, resetOps, apply,
+        Disk.setFile] at hx
+      rcases hx with hx | hx | hx | hx | hx | hx <;> subst hx <;>
+        simp [Consistent, recover, asIs, startup, startupOutcome, bpLoadL, goodEvictionCut, hg, hs, hmem, hp]
   · simp only [Option.some.injEq] at hf
     subst hf
     rw [hp] at hq
     cases hq
 
-theorem c13_eviction_partial (member : Nat → Bool) (d : Disk) (e : Nat)
+theorem c13_eviction_partial (m : WriteMode) (member : Nat → Bool) (d : Disk) (e : Nat)
     (hstart : Consistent member (recover asIs member d) = true)
     (hold : ∃ p, d.db.finished = some p ∧ member p = true ∧ p ≠ e) (hmem : member e = false) :
-    ∀ x ∈ crashImages d (evictionOps e), goodEvictionCut x.1 = true →
+    ∀ x ∈ crashImages d (evictionOps m e), goodEvictionCut m x.1 = true →
       Consistent member (recover asIs member x.2) = true := by
   intro x hx hg
-  rw [c13_eviction_exact member d e hstart hold hmem x hx, hg]
+  rw [c13_eviction_exact m member d e hstart hold hmem x hx, hg]
 
-/-- leaving: after SaveFinished the database says epoch 2 (without this node) while both epoch-1 key files are still
-there and load; after the share was removed the group file is left without a share -/
-theorem c13_window_counterexample_leave :
-    (Cut.after 1, (⟨[0, 1, 2], ⟨.complete 2, some 2⟩, .whole 1, .whole 1⟩ : Disk)) ∈ crashImages exDisk (evictionOps 2) ∧
-    (recover asIs (fun e => e == 1) ⟨[0, 1, 2], ⟨.complete 2, some 2⟩, .whole 1, .whole 1⟩).outcome = .ok 1 (.val 1) ∧
-    Consistent (fun e => e == 1) (recover asIs (fun e => e == 1) ⟨[0, 1, 2], ⟨.complete 2, some 2⟩, .whole 1, .whole 1⟩) = false ∧
-    (Cut.after 2, (⟨[0, 1, 2], ⟨.complete 2, some 2⟩, .whole 1, .absent⟩ : Disk)) ∈ crashImages exDisk (evictionOps 2) ∧
-    (recover asIs (fun e => e == 1) ⟨[0, 1, 2], ⟨.complete 2, some 2⟩, .whole 1, .absent⟩).outcome = .shareMissing ∧
-    Consistent (fun e => e == 1) (recover asIs (fun e => e == 1) ⟨[0, 1, 2], ⟨.complete 2, some 2⟩, .whole 1, .absent⟩) = false := by
-  decide
+/-- leaving (either variant): after SaveFinished the database says epoch 2 (without this node) while both epoch-1 key
+files are still there and load; after the share was removed the group file is left without a share -/
+theorem c13_window_counterexample_leave (m : WriteMode) :
+    (Cut.after 1, Disk.clean [0, 1, 2] ⟨.complete 2, some 2⟩ (.whole 1) (.whole 1)) ∈ crashImages exDisk (evictionOps m 2) ∧
+    (recover asIs (fun e => e == 1) (.clean [0, 1, 2] ⟨.complete 2, some 2⟩ (.whole 1) (.whole 1))).outcome = .ok 1 (.val 1) ∧
+    Consistent (fun e => e == 1) (recover asIs (fun e => e == 1) (.clean [0, 1, 2] ⟨.complete 2, some 2⟩ (.whole 1) (.whole 1))) = false ∧
+    (Cut.after 2, Disk.clean [0, 1, 2] ⟨.complete 2, some 2⟩ (.whole 1) .absent) ∈ crashImages exDisk (evictionOps m 2) ∧
+    (recover asIs (fun e => e == 1) (.clean [0, 1, 2] ⟨.complete 2, some 2⟩ (.whole 1) .absent)).outcome = .shareMissing ∧
+    Consistent (fun e => e == 1) (recover asIs (fun e => e == 1) (.clean [0, 1, 2] ⟨.complete 2, some 2⟩ (.whole 1) .absent)) = false := by
+  cases m <;> decide
 
 example : Consistent (fun e => e == 1) (recover asIs (fun e => e == 1) exDisk) = true ∧
-    ∃ x ∈ crashImages exDisk (evictionOps 2), goodEvictionCut x.1 = true ∧ x.1 ≠ .after 0 :=
-  ⟨by decide, (.after 3, ⟨[0, 1, 2], ⟨.complete 2, some 2⟩, .absent, .absent⟩), by decide, by decide, by decide⟩
+    ∀ m, ∃ x ∈ crashImages exDisk (evictionOps m 2), goodEvictionCut m x.1 = true ∧ x.1 ≠ .after 0 :=
+  ⟨by decide, fun m => ⟨(.after 3, .clean [0, 1, 2] ⟨.complete 2, some 2⟩ .absent .absent),
+    by cases m <;> decide, by cases m <;> decide, by decide⟩⟩
 
 /-! ### the corrected variant: reconcile the key files from the finished DKG record at load -/
 
 /-- FULL STATEMENT for the corrected variant. With reconciliation at load every crash point of a completion — member
-or not, torn files included — recovers self-consistently: atomicity of the one bbolt transaction is all it needs. -/
-theorem c13_files_one_epoch_fixed (member : Nat → Bool) (d : Disk) (e : Nat)
+or not, torn files included, whichever file-write primitive — recovers self-consistently: atomicity of the one bbolt
+transaction is all it needs. -/
+theorem c13_files_one_epoch_fixed (m : WriteMode) (member : Nat → Bool) (d : Disk) (e : Nat)
     (hstart : Consistent member (recover asIs member d) = true) :
-    (∀ x ∈ crashImages d (completionOps e), Consistent member (recover fixed member x.2) = true) ∧
-    (∀ x ∈ crashImages d (evictionOps e), Consistent member (recover fixed member x.2) = true) := by
+    (∀ x ∈ crashImages d (completionOps m e), Consistent member (recover fixed member x.2) = true) ∧
+    (∀ x ∈ crashImages d (evictionOps m e), Consistent member (recover fixed member x.2) = true) := by
   have shapes := start_shapes member d hstart
   clear hstart
-  obtain ⟨chain, ⟨cur, fin⟩, g, s⟩ := d
-  constructor
-  · intro x hx
-    simp [crashImages, crashImagesAux, completionOps, completionOpsIn, codeOrder, stageOps,
-      storeDKGOutputOps, saveGroupOps, saveShareOps, saveOps, createSecureFileOps, allClasses, apply,
-      Disk.setFile] at hx
-    rcases shapes with ⟨hf, hg, hs⟩ | ⟨p, hf, hp, hg, hs⟩ | ⟨p, hf, hp, hg, hs⟩ <;> simp only at hf hg hs <;> subst hf <;>
-      cases hm : member e <;>
-      rcases hx with hx | hx | hx | hx | hx | hx | hx | hx | hx | hx | hx | hx | hx | hx | hx <;> subst hx <;>
-      simp [Consistent, recover, fixed, reconcileFiles, startup, startupOutcome, bpLoadL, *]
-  · intro x hx
-    simp [crashImages, crashImagesAux, evictionOps, evictionOpsIn, codeOrder, stageOps, resetOps, apply,
-      Disk.setFile] at hx
-    rcases shapes with ⟨hf, hg, hs⟩ | ⟨p, hf, hp, hg, hs⟩ | ⟨p, hf, hp, hg, hs⟩ <;> simp only at hf hg hs <;> subst hf <;>
-      cases hm : member e <;>
-      rcases hx with hx | hx | hx | hx <;> subst hx <;>
-      simp [Consistent, recover, fixed, reconcileFiles, startup, startupOutcome, bpLoadL, *]
+  obtain ⟨chain, ⟨cur, fin⟩, g, s, gt, st⟩ := d
+  cases m
+  · constructor
+    · intro x hx
+      simp [crashImages, crashImagesAux, completionOps, completionOpsIn, codeOrder, stageOps,
+        storeDKGOutputOps, saveGroupOps, saveShareOps, saveOps, creatorOps, createSecureFileOps, allClasses, apply,
+        Disk.setFile] at hx
+      rcases shapes with ⟨hf, hg, hs⟩ | ⟨p, hf, hp, hg, hs⟩ | ⟨p, hf, hp, hg, hs⟩ <;> simp only at hf hg hs <;> subst hf <;>
+        cases hm : member e <;>
+        rcases hx with hx | hx | hx | hx | hx | hx | hx | hx | hx | hx | hx | hx | hx | hx | hx <;> subst hx <;>
+        simp [Consistent, recover, fixed, reconcileFiles, startup, startupOutcome, bpLoadL, *]
+    · intro x hx
+      simp [crashImages, crashImagesAux, evictionOps, evictionOpsIn, codeOrder, stageOps, resetOps, apply,
+        Disk.setFile] at hx
+      rcases shapes with ⟨hf, hg, hs⟩ | ⟨p, hf, hp, hg, hs⟩ | ⟨p, hf, hp, hg, hs⟩ <;> simp only at hf hg hs <;> subst hf <;>
+        cases hm : member e <;>
+        rcases hx with hx | hx | hx | hx <;> subst hx <;>
+        simp [Consistent, recover, fixed, reconcileFiles, startup, startupOutcome, bpLoadL, *]
+  · constructor
+    · intro x hx
+      simp [crashImages, crashImagesAux, completionOps, completionOpsIn, codeOrder, stageOps,
+        storeDKGOutputOps, saveGroupOps, saveShareOps, saveOps, creatorOps, createSecureFileOps, File.tmp, allClasses, apply,
+        Disk.setFile, Disk.getFile] at hx
+      rcases shapes with ⟨hf, hg, hs⟩ | ⟨p, hf, hp, hg, hs⟩ | ⟨p, hf, hp, hg, hs⟩ <;> simp only at hf hg hs <;> subst hf <;>
+        cases hm : member e <;>
+        rcases hx with hx | hx | hx | hx | hx | hx | hx | hx | hx | hx | hx | hx | hx | hx | hx | hx | hx <;> subst hx <;>
+        simp [Consistent, recover, fixed, reconcileFiles, startup, startupOutcome, bpLoadL, *]
+    · intro x hx
+      simp [crashImages, crashImagesAux, evictionOps, evictionOpsIn, codeOrder, stageOps, resetOps, apply,
+        Disk.setFile] at hx
+      rcases shapes with ⟨hf, hg, hs⟩ | ⟨p, hf, hp, hg, hs⟩ | ⟨p, hf, hp, hg, hs⟩ <;> simp only at hf hg hs <;> subst hf <;>
+        cases hm : member e <;>
+        rcases hx with hx | hx | hx | hx | hx | hx <;> subst hx <;>
+        simp [Consistent, recover, fixed, reconcileFiles, startup, startupOutcome, bpLoadL, *]
 
-example : ∀ x ∈ crashImages exDisk (completionOps 2), Consistent exMember (recover fixed exMember x.2) = true := by
-  decide
+example : ∀ m, ∀ x ∈ crashImages exDisk (completionOps m 2), Consistent exMember (recover fixed exMember x.2) = true := by
+  intro m; cases m <;> decide
 
 /-! ### resuming -/
 
@@ -470,21 +731,31 @@ theorem c13_resumes (member : Nat → Bool) (r : Recovered) (e : Nat)
   simp [hm] at hc
   simp [Resumes, hc.2, hm]
 
-/-- … in particular after a completed DKG completion, and at its first crash point if the node was a member before -/
-theorem c13_completion_resumes (member : Nat → Bool) (d : Disk) (e : Nat)
+/-- … in particular after a completed DKG completion (either variant) -/
+theorem c13_completion_resumes (m : WriteMode) (member : Nat → Bool) (d : Disk) (e : Nat)
     (hstart : Consistent member (recover asIs member d) = true)
     (hnew : ∀ p, d.db.finished = some p → p ≠ e) (hmem : member e = true) :
-    Resumes member (recover asIs member (run d (completionOps e))) = true := by
-  have hin := crashImages_after d (completionOps e) 6 (Nat.le_refl 6)
-  have hc := c13_files_one_epoch_partial member d e hstart hnew hmem _ hin rfl
-  have : (completionOps e).take 6 = completionOps e := rfl
-  rw [this] at hc
-  apply c13_resumes member _ e hc _ hmem
-  obtain ⟨chain, ⟨cur, fin⟩, g, s⟩ := d
-  simp [recover, asIs, run, completionOps, completionOpsIn, codeOrder, stageOps, storeDKGOutputOps, saveGroupOps,
-    saveShareOps, saveOps, createSecureFileOps, apply, Disk.setFile]
+    Resumes member (recover asIs member (run d (completionOps m e))) = true := by
+  cases m
+  · have hin := crashImages_after d (completionOps .inPlace e) 6 (Nat.le_refl 6)
+    have hc := c13_files_one_epoch_partial .inPlace member d e hstart hnew hmem _ hin rfl
+    have : (completionOps .inPlace e).take 6 = completionOps .inPlace e := rfl
+    rw [this] at hc
+    apply c13_resumes member _ e hc _ hmem
+    obtain ⟨chain, ⟨cur, fin⟩, g, s, gt, st⟩ := d
+    simp [recover, asIs, run, completionOps, completionOpsIn, codeOrder, stageOps, storeDKGOutputOps, saveGroupOps,
+      saveShareOps, saveOps, creatorOps, createSecureFileOps, apply, Disk.setFile]
+  · have hin := crashImages_after d (completionOps .atomicRename e) 8 (Nat.le_refl 8)
+    have hc := c13_files_one_epoch_partial .atomicRename member d e hstart hnew hmem _ hin rfl
+    have : (completionOps .atomicRename e).take 8 = completionOps .atomicRename e := rfl
+    rw [this] at hc
+    apply c13_resumes member _ e hc _ hmem
+    obtain ⟨chain, ⟨cur, fin⟩, g, s, gt, st⟩ := d
+    simp [recover, asIs, run, completionOps, completionOpsIn, codeOrder, stageOps, storeDKGOutputOps, saveGroupOps,
+      saveShareOps, saveOps, creatorOps, createSecureFileOps, File.tmp, apply, Disk.setFile, Disk.getFile]
 
-example : Resumes exMember (recover asIs exMember (run exDisk (completionOps 2))) = true := by decide
+example : ∀ m, Resumes exMember (recover asIs exMember (run exDisk (completionOps m 2))) = true := by
+  intro m; cases m <;> decide
 
 /-! ### steps that do not touch the completed state keep a self-consistent node self-consistent -/
 
